@@ -84,5 +84,5 @@ Alpha14 == Alpha11 \cup {50, 70, 38}                           \* + 2 F &
 AlphaAll == 0..255
 KindsAll == {"none", "id", "shrink", "grow3", "grow64"}
 KindsNone == {"none"}
-KindsQuick == {"none", "shrink", "grow3"}
+KindsQuick == {"id", "shrink", "grow3", "grow64"}     \* quick: kind "none" is checked by the (longer) generator run itself
 =============================================================================
